@@ -40,9 +40,13 @@ import (
 //            4 a frame with an invalid length prefix (short body / oversize / empty)
 //   down     the lookupd refuses connections during this step
 //   restart  the lookupd restarts with empty state before this step
+//   rst      the established connection is aborted before this step (RST: a lookupd host reboot,
+//            a firewall / NAT / proxy in between dropping the flow): the lookupd's listings for
+//            it are gone at once and from now on EVERY write and read nsqd attempts on that
+//            connection fails - until nsqd closes it and dials again, nothing reaches the lookupd
 // A native replay realises an io fault by handing the real socket an already expired deadline
 // (the replay build reads lookupPeer's time.Now() from verifrt's clock) and "down" by closing
-// the listener.
+// the listener; "rst" by closing the lookupd's end with SO_LINGER 0.
 // =============================================================================================
 
 type verifLCmd struct {
@@ -54,8 +58,10 @@ type verifLSession struct {
 	idx    int
 	recv   []byte // every byte nsqd wrote on this connection
 	done   int    // commands already answered
+	off    int    // recv[off:] = the bytes not yet parsed into a command
 	avail  []byte // reply bytes not yet read (symbolic run)
 	srvEOF bool   // the lookupd hung up its side
+	rst    bool   // the connection was aborted (RST): all further I/O of nsqd on it fails
 	closed bool   // nsqd closed the connection
 	magic  bool   // magic received and correct
 	ident  bool   // IDENTIFY answered honestly
@@ -81,6 +87,7 @@ type verifWorld struct {
 	lds      []*verifLookupd
 	budget   int    // faults still available
 	hits     int    // faults that have struck
+	rsts     int    // ... of which connection aborts (RST)
 	opN      int    // I/O calls so far (symbolic run)
 	ioPlan   []bool // native: which I/O calls fail
 	opBase   int    // native: I/O calls before the current clock plan
@@ -159,6 +166,10 @@ func (w *verifWorld) beginStep() {
 	for _, ld := range w.lds {
 		if w.strikes("restart") {
 			ld.restart()
+		}
+		if ld.established() && w.strikes("rst") {
+			w.rsts++
+			ld.abort()
 		}
 		ld.setDown(w.strikes("down"))
 	}
@@ -279,6 +290,35 @@ func (ld *verifLookupd) restart() {
 	}
 }
 
+// established: the lookupd holds a connection of nsqd (there is something to abort).
+func (ld *verifLookupd) established() bool {
+	ld.w.lock()
+	defer ld.w.unlock()
+	s := ld.current()
+	return s != nil && !s.srvEOF && !s.closed
+}
+
+// abort: the current connection is reset. The lookupd forgets it (and its listings) at once;
+// it can no longer tell what nsqd does with its end, so from the lookupd's point of view the
+// connection is closed from here on.
+func (ld *verifLookupd) abort() {
+	ld.w.lock()
+	s := ld.current()
+	s.hangUpState()
+	s.rst = true
+	s.closed = true
+	if s.conn != nil {
+		if tc, ok := s.conn.(*net.TCPConn); ok {
+			tc.SetLinger(0) // close() sends RST instead of FIN
+		}
+		s.conn.Close()
+	}
+	ld.w.unlock()
+	if !verifrt.Symbolic() {
+		time.Sleep(50 * time.Millisecond) // the RST reaches nsqd's socket
+	}
+}
+
 func (ld *verifLookupd) setDown(down bool) {
 	if verifrt.Symbolic() {
 		ld.down = down
@@ -339,15 +379,19 @@ func (s *verifLSession) serve() {
 
 // hangUp: the lookupd ends its side of the connection; its listings for it are gone.
 func (s *verifLSession) hangUp() {
-	s.srvEOF = true
-	s.ident = false
-	s.topics = map[string]bool{}
-	s.chans = map[string]bool{}
+	s.hangUpState()
 	if s.conn != nil {
 		if tc, ok := s.conn.(*net.TCPConn); ok {
 			tc.CloseWrite() // FIN, keep draining: nsqd sees EOF, its writes are swallowed
 		}
 	}
+}
+
+func (s *verifLSession) hangUpState() {
+	s.srvEOF = true
+	s.ident = false
+	s.topics = map[string]bool{}
+	s.chans = map[string]bool{}
 }
 
 func (s *verifLSession) send(b []byte) {
@@ -376,63 +420,53 @@ func (s *verifLSession) feed(p []byte) {
 	}
 }
 
-// nextCmd parses the done-th command out of recv (nil,false while incomplete).
+// nextCmd parses the next unanswered command out of recv (false while it is incomplete).
+// Incremental: off is where the first unanswered command starts.
 func (s *verifLSession) nextCmd() (verifLCmd, bool) {
 	b := s.recv
-	if len(b) < 4 {
-		return verifLCmd{}, false
-	}
 	if !s.magic {
+		if len(b) < 4 {
+			return verifLCmd{}, false
+		}
 		if !bytes.Equal(b[:4], verifMagic) {
 			s.hangUp() // bad protocol magic
 			return verifLCmd{}, false
 		}
 		s.magic = true
+		s.off = 4
 	}
-	pos := 4
-	for k := 0; ; k++ {
-		nl := -1
-		for i := pos; i < len(b); i++ {
-			if b[i] == '\n' {
-				nl = i
-				break
-			}
+	nl := bytes.IndexByte(b[s.off:], '\n')
+	if nl < 0 {
+		return verifLCmd{}, false
+	}
+	nl += s.off
+	// NAME [topic [channel]]
+	var f [3]string
+	line := b[s.off:nl]
+	for nf := 0; nf < 3; nf++ {
+		sp := bytes.IndexByte(line, ' ')
+		if sp < 0 || nf == 2 {
+			f[nf] = string(line)
+			break
 		}
-		if nl < 0 {
+		f[nf] = string(line[:sp])
+		line = line[sp+1:]
+	}
+	next := nl + 1
+	cmd := verifLCmd{name: f[0], topic: f[1], channel: f[2]}
+	if cmd.name == "IDENTIFY" {
+		if len(b) < next+4 {
 			return verifLCmd{}, false
 		}
-		var f []string
-		start := pos
-		for i := pos; i <= nl; i++ {
-			if i == nl || b[i] == ' ' {
-				f = append(f, string(b[start:i]))
-				start = i + 1
-			}
+		n := int(uint32(b[next])<<24 | uint32(b[next+1])<<16 | uint32(b[next+2])<<8 | uint32(b[next+3]))
+		if len(b) < next+4+n {
+			return verifLCmd{}, false
 		}
-		next := nl + 1
-		cmd := verifLCmd{name: f[0]}
-		if len(f) > 1 {
-			cmd.topic = f[1]
-		}
-		if len(f) > 2 {
-			cmd.channel = f[2]
-		}
-		if cmd.name == "IDENTIFY" {
-			if len(b) < next+4 {
-				return verifLCmd{}, false
-			}
-			n := int(uint32(b[next])<<24 | uint32(b[next+1])<<16 | uint32(b[next+2])<<8 | uint32(b[next+3]))
-			if len(b) < next+4+n {
-				return verifLCmd{}, false
-			}
-			next += 4 + n
-		}
-		if k == s.done {
-			s.done++
-			return cmd, true
-		}
-		pos = next
+		next += 4 + n
 	}
+	s.off = next
+	s.done++
+	return cmd, true
 }
 
 func (s *verifLSession) respond(cmd verifLCmd) {
@@ -524,6 +558,7 @@ type verifLConn struct {
 var errVerifTimeout = errors.New("verif: i/o timeout")
 var errVerifClosed = errors.New("verif: use of closed network connection")
 var errVerifRefused = errors.New("verif: connection refused")
+var errVerifReset = errors.New("verif: connection reset by peer")
 
 func verifDialStub(network, address string, timeout time.Duration) (net.Conn, error) {
 	w := verifW
@@ -542,6 +577,9 @@ func (c *verifLConn) Read(p []byte) (int, error) {
 	if c.s.ld.w.ioFault() {
 		return 0, errVerifTimeout
 	}
+	if c.s.rst {
+		return 0, errVerifReset
+	}
 	if len(c.s.avail) > 0 {
 		n := copy(p, c.s.avail)
 		c.s.avail = c.s.avail[n:]
@@ -559,6 +597,9 @@ func (c *verifLConn) Write(p []byte) (int, error) {
 	}
 	if c.s.ld.w.ioFault() {
 		return 0, errVerifTimeout
+	}
+	if c.s.rst {
+		return 0, errVerifReset
 	}
 	c.s.feed(p)
 	return len(p), nil
